@@ -15,4 +15,6 @@ for _p in sorted(glob.glob(os.path.join(os.path.dirname(os.path.abspath(__file__
     _m = importlib.util.module_from_spec(_spec)
     _spec.loader.exec_module(_m)
     CHECKS[_id] = _m.CHECK
+    if getattr(_m, "RULE_ADD", None):
+        CHECKS[_id]["rule"] = CHECKS[_id]["rule"] + _m.RULE_ADD  # generator features added after the rule text was written
     MANIFEST_TEXT[_id] = _m.TEXT
